@@ -100,11 +100,15 @@ pub fn device_authentication(
                     "device key jwk is missing coordinates".to_string(),
                 ));
             };
-            let encoded_point = p256::EncodedPoint::from_affine_coordinates(
-                GenericArray::from_slice(x.0.as_slice()),
-                GenericArray::from_slice(y.0.as_slice()),
-                false,
-            );
+            let (Some(x), Some(y)) = (
+                GenericArray::from_exact_iter(x.0),
+                GenericArray::from_exact_iter(y.0),
+            ) else {
+                return Err(Error::MdocAuth(
+                    "device key coordinates have the wrong length".to_string(),
+                ));
+            };
+            let encoded_point = p256::EncodedPoint::from_affine_coordinates(&x, &y, false);
             let verifying_key = VerifyingKey::from_encoded_point(&encoded_point)?;
             let namespaces_bytes = &document.device_signed.namespaces;
             let device_auth: &DeviceAuth = &document.device_signed.device_auth;
